@@ -1,0 +1,36 @@
+//go:build verif
+// +build verif
+
+package fs
+
+// Verification hook (add-only, compiled only with the build tag "verif"):
+// copy of the symlink targets recorded for watch mode, per watched directory.
+
+// VerifWatchSymlinks returns, for every watch record that has accessed
+// entries, a copy of its "symlinks" map (entry name -> what it resolved to).
+func VerifWatchSymlinks(f FS) map[string]map[string]string {
+	if z, ok := f.(*zipFS); ok {
+		f = z.inner
+	}
+	r, ok := f.(*realFS)
+	if !ok {
+		return nil
+	}
+	r.watchMutex.Lock()
+	defer r.watchMutex.Unlock()
+	out := map[string]map[string]string{}
+	for path, data := range r.watchData {
+		if a := data.accessedEntries; a != nil {
+			a.mutex.Lock()
+			if a.symlinks != nil {
+				m := make(map[string]string, len(a.symlinks))
+				for k, v := range a.symlinks {
+					m[k] = v
+				}
+				out[path] = m
+			}
+			a.mutex.Unlock()
+		}
+	}
+	return out
+}
